@@ -7,7 +7,7 @@ H <call>|<call>|...            parse history on ONE instance.  <call> = S:<cps>:
                                NEW instance (no spaces, `|`, `:`), supplied by the harness.
    answer: model=<r#cursor|...> spec=<r#cursor|...>   (model: `runHistory` on the cursor model with a
            body that answers <fresh> on a clean cursor and DIRTY otherwise; spec: `freshRuns`)
-L v=<ver> m=<match>;<match>;...  <match> = <g><n>:<cps>, g∈{l,s,n,u,w} the regex group, n = 1 if
+L v=<ver> [a=2] m=<match>;<match>;...  (a=2: the comment-aware `XPath2Parser.advance`)  <match> = <g><n>:<cps>, g∈{l,s,n,u,w} the regex group, n = 1 if
                                `name_pattern.match(text)`.
    answer: model=<sym>,<sym>,...;err=<err>;last=<sym> spec=<ok|bad>
 E ns=<pfx cps>~<uri cps>;... k=s code=<cps>  |  E ns=... k=q uri=<cps> p=<cps> l=<cps>      `xpath_error`
@@ -116,7 +116,9 @@ def answerL (fs : List (String × String)) : String :=
       let o := pyOracles (fun s => nameSet.contains s)
       let start : Tok := ⟨"(start)", "symbol", "(start)"⟩
       let c0 : Cursor Tok Match := { Cursor.init start with tokens := matches_ }
-      let (syms, err, last) := lexAll tb o (matches_.length + 2) c0
+      let (syms, err, last) :=
+        if field fs "a" == "2" then lexAll2 tb o (matches_.length + 2) c0   -- XPath2Parser.advance (comments)
+        else lexAll tb o (matches_.length + 2) c0
       let okSyms := syms.all tb.has
       let okErr := match err with
         | none => true
